@@ -185,6 +185,8 @@ func GenerateImpl(seed uint64, root string) *Module {
 		return b.String()
 	}
 	m.Files[root+"/ifc/ifc.go"] = render("ifc")
+	// a package at another path with the same declared name and other interfaces of the same names
+	m.Files[root+"/v2/ifc/ifc.go"] = "package ifc\n\ntype Data struct{ W string }\n\ntype I0 interface{ OnlyInV2() }\n\ntype Legacy interface{ Old() }\n"
 	m.Files[root+"/deep/yaml.v3/y.go"] = render("yaml")
 
 	// ---- user package
@@ -219,6 +221,10 @@ func GenerateImpl(seed uint64, root string) *Module {
 	} else {
 		b.WriteString(fmt.Sprintf("\t%q\n", g.base+"/deep/yaml.v3"))
 	}
+	v2 := r.Chance(1, 2)
+	if v2 {
+		b.WriteString(fmt.Sprintf("\tifcv2 %q\n", g.base+"/v2/ifc"))
+	}
 	second := ""
 	if r.Chance(1, 3) {
 		second = "wire"
@@ -231,6 +237,9 @@ func GenerateImpl(seed uint64, root string) *Module {
 	}
 	if second != "" {
 		b.WriteString("var _ " + second + ".Data\n")
+	}
+	if v2 {
+		b.WriteString("var _ ifcv2.Data\n")
 	}
 	b.WriteString("var _ " + qual + "Data\nvar _ " + yq + "Data\n\ntype Local struct{ L int }\n\ntype Str = string\n\ntype PData = *" + qual + "Data\n\n")
 	// a local interface too
@@ -245,6 +254,7 @@ func GenerateImpl(seed uint64, root string) *Module {
 		b.WriteString(fmt.Sprintf("\t%s(%s)%s%s\n", s.name, p, sp, rs))
 	}
 	b.WriteString("}\n\n")
+	b.WriteString("// I0 shares its simple name with an imported interface.\ntype I0 interface{ LocalOnly() }\n\n")
 	all := append([]iface{}, ifaces...)
 	all = append(all, iface{pkg: "", name: "LocalI", sigs: localSigs})
 	{
@@ -317,6 +327,31 @@ func GenerateImpl(seed uint64, root string) *Module {
 		ann += iname
 		if r.Chance(1, 5) {
 			ann += " trailing words"
+		}
+		if r.Chance(1, 4) {
+			// a second annotation on the same type: another interface, the same one with the other pointer-ness, or
+			// the local interface that shares the imported one's simple name
+			switch r.Intn(4) {
+			case 0:
+				ann += "\n// @implements I0"
+			case 1:
+				ann += "\n// @implements &I0"
+			case 2:
+				o2 := all[r.Intn(len(all))]
+				q2 := ""
+				if o2.pkg == "ifc" {
+					q2 = qual
+				} else if o2.pkg == "yaml" {
+					q2 = yq
+				}
+				ann += "\n// @implements " + q2 + o2.name
+			default:
+				if v2 {
+					ann += "\n// @implements ifcv2.Legacy"
+				} else {
+					ann += "\n// @implements &LocalI"
+				}
+			}
 		}
 		// how the type provides the methods
 		mode := r.Intn(7) // 0 value recv, 1 pointer recv, 2 mixed, 3 embedded value Inner, 4 embedded *Inner, 5 interface type, 6 embeds the interface package's Base (sealed pattern)
